@@ -175,6 +175,33 @@ CHECKS = {
              'remaining trees and termination are compared with the '
              'reference.',
         note='One evaluation per case on a quiescent DB; SQLite cascade.'),
+    'C02': dict(
+        level='model_checking', design='3/C02',
+        technique='explicit-state model checking of the implementation: '
+                  'exhaustive DFS over interleavings; differential oracle '
+                  'across schedules and cache modes + reference model',
+        text='For every confluent program x result assignment all '
+             'interleavings are enumerated with spec caches kept and with '
+             'all spec caches dropped before every step; all terminal '
+             'outcomes (states, published, inbound contexts, output) of one '
+             'scenario must be identical across schedules and cache modes '
+             'and equal the single reference outcome.',
+        note='Confluence decided by the reference model; timers only move '
+             'at quiescence here (early timers: C08).'),
+    'C17': dict(
+        level='model_checking', design='3/C17', engine='sched-mc',
+        technique='explicit-state model checking of the real cron '
+                  'processing code: exhaustive DFS over interleavings of '
+                  '1-3 processors\' DB steps, crash injection, virtual clock',
+        text='1-3 activities run the real process_cron_triggers_v2 over '
+             'triggers with every combination of pattern / first time / '
+             'count at clock positions due / late / long lag for several '
+             'rounds; every advance must be due, forward, on the pattern and '
+             'in the future, each consumed occurrence starts exactly one '
+             'workflow with the trigger\'s input / params under its '
+             'project, never more than count, removal after the last one.',
+        note='start_workflow intercepted at the RPC driver; keystone '
+             'stubbed; each DB call an atomic step.'),
     'C13': dict(
         level='model_checking', design='3/C13', engine='sched-mc',
         technique='explicit-state model checking of the real scheduler '
@@ -231,7 +258,7 @@ def main():
         },
         'engines': [
             {'name': 'sched-mc', 'path': 'mc/sched_default.py',
-             'serves_properties': ['C13'],
+             'serves_properties': ['C13', 'C17'],
              'kind_free_text': 'the engine explorer driving the real '
                                'DefaultScheduler/LegacyScheduler loops'},
             {'name': 'op-mc', 'path': 'checks/c16.py',
